@@ -44,9 +44,40 @@ def gen(rng, k):
     return L
 
 
+def gen_bottleneck(rng, k):
+    """a bottleneck queue that holds exactly one or two full segments, on the sender's or the receiver's side,
+    behind a hop with latency, and a transfer much larger than the window: segments are tail-dropped while the
+    writer is blocked (every drop is re-sent on a later ACK; this is not the no-retransmission-timer case)"""
+    from .ncommon import A1
+    r = rng
+    cap = r.choice([1515, 1600, 2000, 3030, 3100])
+    bw = r.choice([5000, 50000, 1000000])
+    lat = r.choice([0, 10000000, 100000000])
+    recv_side = r.random() < 0.5
+    L = ["S 1 queue 0 1000000 0", "ROUTE : 1",
+         "N 1 0 %d" % A1, "S 4 queue 0 0 0", "OUT 0 %d : 4" % A1]
+    if recv_side:
+        L += ["S 5 queue 0 %d 0" % lat, "S 6 queue %d 0 %d" % (bw, cap), "IN 0 %d : 5 6" % A1]
+    else:
+        L += ["S 5 queue 0 1000000 0", "IN 0 %d : 5" % A1]
+    L += ["N 2 0 %d" % (A1 + 1), "S 8 queue 0 1000000 0", "IN 0 %d : 8" % (A1 + 1)]
+    if recv_side:
+        L += ["S 7 queue 0 0 0", "OUT 0 %d : 7" % (A1 + 1)]
+    else:
+        L += ["S 7 queue %d 0 %d" % (bw, cap), "S 9 queue 0 %d 0" % lat, "OUT 0 %d : 7 9" % (A1 + 1)]
+    total = r.choice([30000, 100000, 300000])
+    L += ["M acc_new 1 1", "M tcp_open 1 1", "M tcp_bind 1 0 0 1337", "M listen 1 10", "M tcp_new 2 1", "M tcp_new 3 2",
+          "M accept 1 2 0 10", "M tcp_connect 3 0 %d 1337 11" % A1,
+          "H 11 tcp_write_all 3 %d %d %d 12" % (r.randrange(1000), total, r.choice([1 << 20, 100000, 4000])),
+          "H 12 expires_after 7 100000000000", "H 12 async_wait 7 14", "H 14 tcp_close 3",
+          "H 10 tcp_read_all 2 %d 13" % r.choice([4096, 65536]), "M run"]
+    return L
+
+
 def generate(rng, tier):
     n = 60 if tier == "quick" else 3000
-    return [("p%d" % k, gen(rng, k)) for k in range(n)]
+    nb = 12 if tier == "quick" else 200
+    return [("p%d" % k, gen(rng, k)) for k in range(n)] + [("bn%d" % k, gen_bottleneck(rng, k)) for k in range(nb)]
 
 
 def oracle_with_model(lines, trace, mtrace):
